@@ -375,8 +375,10 @@ def dispatch_rows(prog, sh=None):
     for name in ("p256", "p384", "p521"):
         olen = (CURVES[name]["p"].bit_length() + 7) // 8
         for slen in (1, olen - 1, olen, olen + 1, olen + 8, 2 * olen, 100):
-            for which in ("G", "2G"):
+            for which in ("G", "2G", "-G"):
                 for seed in (0, 0xABCDEF0123456789):
+                    if which == "-G" and (slen != olen or seed):
+                        continue
                     if not sh.take():
                         continue
                     C = Curve(prog, name)
@@ -392,7 +394,7 @@ def dispatch_rows(prog, sh=None):
                     for f in ("ec_mix_add", "ec_full_add", "ec_full_double"):
                         m.models[f] = lambda mm, a: None
                     m.models["gather"] = lambda mm, a: None
-                    A = C.G if which == "G" else ref_add(C.G, C.G, C.p)
+                    A = C.G if which == "G" else (ref_add(C.G, C.G, C.p) if which == "2G" else (C.G[0], (-C.G[1]) % C.p))
                     rc, q = C.point(A)
                     before = None
                     k = bytes([0xFF] * slen)
@@ -402,8 +404,9 @@ def dispatch_rows(prog, sh=None):
                         wrong.append("%s: ec_ws_scalar(%s, %d-byte scalar, seed %s) returns code %r (the same scalar is accepted for other points)" % (
                             name, which, slen, "set" if seed else "0", rc))
                         continue
-                    if which == "2G" and len(seen) != 1:
-                        wrong.append("%s: the generic ladder ran %d times for a non-generator point" % (name, len(seen)))
+                    if which != "G" and len(seen) != 1:
+                        wrong.append("%s: the point %s is not the generator, but the generic ladder ran %d times (the precomputed "
+                                     "generator tables were used for another point)" % (name, which, len(seen)))
                     if seen and seed == 0:
                         # without blinding the ladder must receive the caller's point, not a clobbered one
                         rc2, e = C.point(A)
